@@ -136,6 +136,11 @@ class _D(ast.NodeTransformer):
                         body = [ast.If(test=c, body=body, orelse=[])]
                     body = [ast.For(target=g.target, iter=g.iter, body=body, orelse=[], type_comment=None)]
                 return _loc(body[0], node)
+            # yield from <any iterable>  ->  for v in <iterable>: yield v
+            var = "_yf%d" % getattr(node, "lineno", 0)
+            loop = ast.For(target=ast.Name(id=var, ctx=ast.Store()), iter=src,
+                           body=[ast.Expr(value=ast.Yield(value=ast.Name(id=var, ctx=ast.Load())))], orelse=[], type_comment=None)
+            return _loc(loop, node)
         return node
 
 
